@@ -270,6 +270,30 @@ def run(prog, rep):
                           f'without ordering the candidates the first satisfying entry in file order is returned; for the '
                           f'request core/ram/disk={bad[1]} that is {bad[2]} {bad[3]} although {bad[0]} satisfies it and is '
                           f'smaller or equal in every dimension')
+    # the table the selection works on keeps the order of the catalogue file ("the last key is the largest size" and the
+    # tie-breaking of the stable sort are facts about that order): it is built by iterating the decoded file itself
+    rc_ = icat.methods.get('__read_catalog')
+    if rc_ is None:
+        raise AnalysisError('InstanceCatalog.__read_catalog vanished')
+    loaded = {t.id for a in ast.walk(rc_) if isinstance(a, ast.Assign) and isinstance(a.value, ast.Call) and call_name(a.value) in ('load', 'loads')
+              for t in a.targets if isinstance(t, ast.Name)}
+    order_ok = False
+    order_desc = None
+    for n in ast.walk(rc_):
+        gens_ = n.generators if isinstance(n, (ast.DictComp, ast.ListComp)) else ([n] if isinstance(n, ast.For) else [])
+        for g in gens_:
+            it = g.iter
+            base_ = it.func.value if isinstance(it, ast.Call) and isinstance(it.func, ast.Attribute) and it.func.attr in ('items', 'keys') and not it.args else it
+            if any(isinstance(x, ast.Name) and x.id in loaded for x in ast.walk(it)):
+                order_desc = norm(it, 60)
+                order_ok = isinstance(base_, ast.Name) and base_.id in loaded
+    rep.instance('R2', f'InstanceCatalog.__read_catalog: table built by iterating {order_desc} (file order kept: {order_ok})')
+    if order_desc is not None and not order_ok:
+        rep.violation('R2', loc(imod, rc_), 'InstanceCatalog.__read_catalog', f'table built from {order_desc}',
+                      f'the instance table is built from {order_desc}, not from the decoded catalogue in file order: the fallback '
+                      f'"last key" is then no longer the largest size and ties among candidates are broken differently, so the size '
+                      f'returned is not minimal / not the largest')
+
     # ---- component catalogue ----
     comps = prog.data_file(COMPS)
     if not isinstance(comps, list) or not comps:
